@@ -110,6 +110,11 @@ fn kill(p: &mut Proc) {
 }
 
 pub static CONFIRMED_HANGS: AtomicUsize = AtomicUsize::new(0);
+pub static FAULT_JOBS: AtomicUsize = AtomicUsize::new(0);
+/// After this many jobs needed fault attribution (hang / abort), the run has its answer: remaining
+/// jobs are skipped (counted) so that a badly broken tree costs minutes, not hours.
+pub const MAX_FAULT_JOBS: usize = 24;
+pub static SKIPPED_JOBS: AtomicUsize = AtomicUsize::new(0);
 
 /// Run one job to a definitive reply: hangs and aborts become data in the reply.
 fn run_definitive(p: &mut Proc, job: &Value, lim: &Limits) -> Value {
@@ -119,10 +124,11 @@ fn run_definitive(p: &mut Proc, job: &Value, lim: &Limits) -> Value {
     }
     kill(p);
     *p = spawn();
+    FAULT_JOBS.fetch_add(1, Ordering::SeqCst);
     // attribute the problem to individual calls: compile alone, then compile + one call each
     let n_confirmed = CONFIRMED_HANGS.load(Ordering::SeqCst);
     let factor = if n_confirmed < 3 { lim.confirm_factor } else { 3 };
-    let mut single = |calls: Vec<Value>, p: &mut Proc| -> Value {
+    let single = |calls: Vec<Value>, p: &mut Proc| -> Value {
         let mut j = job.clone();
         j["calls"] = Value::Array(calls);
         j["facts"] = Value::Bool(false);
@@ -182,6 +188,10 @@ where
                         Some(j) => j,
                         None => break,
                     };
+                    if FAULT_JOBS.load(Ordering::SeqCst) >= MAX_FAULT_JOBS {
+                        SKIPPED_JOBS.fetch_add(1, Ordering::SeqCst);
+                        continue;
+                    }
                     let reply = run_definitive(&mut p, &job, &lim);
                     handle(job, reply);
                 }
